@@ -1683,6 +1683,16 @@ func c26(c *Ctx) {
 
 	// 1. corpus: known witnesses and seeds (shell text, one per line, Go-quoted after "sh:")
 	for _, l := range c.CorpusLines() {
+		if strings.HasPrefix(l, "specsh:") {
+			// BashSem validation only (the interpreter is known to differ: ERR traps): model tie and
+			// specbash, no interp-vs-bash verdict
+			if text, err := strconv.Unquote(strings.TrimPrefix(l, "specsh:")); err == nil {
+				if cs := addText(text, false, "corpus-spec"); cs != nil {
+					cs.forceBash = true
+				}
+			}
+			continue
+		}
 		if !strings.HasPrefix(l, "sh:") {
 			continue
 		}
